@@ -18,11 +18,11 @@ for f in sorted(glob.glob(os.path.join(V, "seeded", "*", "meta.json"))):
 n = len(rows); c = sum(1 for r in rows if not r.split("|")[4].strip() == "—")
 app = ["## Appendix A — seeded-change campaign", "",
        "Fresh sub-agents were given only the text of one property and a scratch worktree of `/repo` and asked for realistic changes",
-       "(three each in round 1, two each in rounds 2 to 7 -- ids `R2-` .. `R7-`; rounds 5 to 7 for ten properties each) that break the property, still compile and pass the 38",
+       "(three each in round 1, two each in rounds 2 to 8 -- ids `R2-` .. `R8-`; rounds 5 to 8 for ten properties each) that break the property, still compile and pass the 38",
        "tests, with a demonstration. Every change was confirmed",
        "(`bin/mutcheck`: patch applies, existing tests pass with it, the demonstration fails with it and passes without it) and the",
        "property's quick check was run against a scratch worktree carrying the change. Kept under `seeded/<id>/`.",
-       "", "%d changes confirmed, %d detected by a quick-tier check (column 4; see the notes below the table for the two that are not (neither contradicts its property as stated), and for what each round led to)." % (n, c), "",
+       "", "%d changes confirmed, %d detected by a quick-tier check (column 4; see the notes below the table for the ones that are not (none of them contradicts its property as stated), and for what each round led to)." % (n, c), "",
        "| id | property | confirmed | caught by (quick) | change (first line of the author's README) |", "|---|---|---|---|---|"] + rows + [""]
 notes = os.path.join(V, "seeded", "NOTES.md")
 if os.path.exists(notes): app += [open(notes).read()]
